@@ -291,7 +291,9 @@ let handle line =
           let show l = S.concat "," (L.map (fun z -> string_of_int (z_to_int z)) (take (min capi d) l)) in
           Printf.sprintf " c0,%d,%d,[%s],[%s],e%d" (bi isr3) d (show vf) (if isr3 then show vt else "") (z_to_int nerr) end
         else Printf.sprintf " c%d,e%d" (ri r3) (z_to_int nerr) in
-      "EXPR" ^ s1 ^ s2 ^ s3
+      let (((r4, isr4), f4), t4) = Glue.numlist_entry_double body idx in
+      let s4 = if r4 = EOK then Printf.sprintf " d0,%d,%s,%s" (bi isr4) (string_of_z f4) (if isr4 then string_of_z t4 else "0") else Printf.sprintf " d%d" (ri r4) in
+      "EXPR" ^ s1 ^ s2 ^ s3 ^ s4
   | _ -> raise Unsupported
 
 let () =
